@@ -10,6 +10,6 @@ Lemma serialize_agree : mem_s "py_serialize" translated = true ->
   Ok (Tup [gbytes (serialize m); Tup []; Tup []]).
 Proof.
   intros Hin m. first [untranslated Hin | clear Hin].
-  unfold py_serialize, serialize, optg, ubx_hdr.
-  destruct (m_payload m); cbn [g_is_none gbytes gnone bind g_add]; rewrite <- ?app_assoc; reflexivity.
+  all: unfold py_serialize, serialize, optg, ubx_hdr.
+  all: destruct (m_payload m); cbn [g_is_none gbytes gnone bind g_add]; rewrite <- ?app_assoc; reflexivity.
 Qed.
